@@ -101,10 +101,10 @@ def h_field_eq_diff(t: int, rel_a: int, rel_b: int,
     return hx.verdict(ok, True)
 
 
-def _model(name, fields, ut=(), it=(), indexes=(), constraints=(), comment=None):
+def _model(name, fields, ut=(), it=(), indexes=(), constraints=(), comment=None, applied=True):
     ms = ModelSignature(model_name=name, table_name='app_' + name.lower(), pk_column='id',
                         unique_together=list(ut), index_together=list(it),
-                        db_table_comment=comment, unique_together_applied=True)
+                        db_table_comment=comment, unique_together_applied=applied)
     ms.add_field_sig(FieldSignature('id', models.AutoField, {'primary_key': True}))
     for f in fields:
         ms.add_field_sig(f)
@@ -169,7 +169,8 @@ def _is_reorder(x, y):
 
 
 def _model_eq_core(ut_a, ut_b, it_a, it_b, ia1, ia2, ib1, ib2, swap_a, swap_b,
-                   ca1, ca2, cb1, cb2, cswap_a, cswap_b, com_a, com_b):
+                   ca1, ca2, cb1, cb2, cswap_a, cswap_b, com_a, com_b, applied_a=True,
+                   applied_b=True):
     fields = lambda: [FieldSignature('a', models.IntegerField, {}),
                       FieldSignature('b', models.IntegerField, {}),
                       FieldSignature('c', models.IntegerField, {})]
@@ -181,8 +182,8 @@ def _model_eq_core(ut_a, ut_b, it_a, it_b, ia1, ia2, ib1, ib2, swap_a, swap_b,
         if (_is_reorder(idx_a, idx_b) or _is_reorder(con_a, con_b)
                 or _is_reorder(list(TOGETHERS[it_a]), list(TOGETHERS[it_b]))):
             return True, False
-    ma = _model('M', fields(), TOGETHERS[ut_a], TOGETHERS[it_a], idx_a, con_a, com_a)
-    mb = _model('M', fields(), TOGETHERS[ut_b], TOGETHERS[it_b], idx_b, con_b, com_b)
+    ma = _model('M', fields(), TOGETHERS[ut_a], TOGETHERS[it_a], idx_a, con_a, com_a, applied_a)
+    mb = _model('M', fields(), TOGETHERS[ut_b], TOGETHERS[it_b], idx_b, con_b, com_b, applied_b)
     pa = _project([ma], False)
     pb = _project([mb], False)
     ok = True
@@ -195,16 +196,21 @@ def _model_eq_core(ut_a, ut_b, it_a, it_b, ia1, ia2, ib1, ib2, swap_a, swap_b,
     return ok, True
 
 
-def h_eq_togethers(ut_a: int, ut_b: int, it_a: int, it_b: int) -> bool:
-    """Model/App/Project signature: == iff diff empty both ways; unique_together/index_together vary.
+def h_eq_togethers(ut_a: int, ut_b: int, it_a: int, it_b: int, applied_a: bool,
+                   applied_b: bool) -> bool:
+    """Model/App/Project signature: == iff diff empty both ways; unique_together/index_together
+    and the "unique_together was applied to the database" flag (False for signatures loaded
+    from old versions) vary; a signature equals its clone with an empty diff.
 
     pre: 0 <= ut_a <= 5 and 0 <= ut_b <= 5 and 0 <= it_a <= 5 and 0 <= it_b <= 5
     pre: hx.in_part(ut_a, ut_b)
-    pre: not hx.excluded(ut_a, ut_b, it_a, it_b)
+    pre: (it_a == it_b or (applied_a and applied_b))
+    pre: not hx.excluded(ut_a, ut_b, it_a, it_b, applied_a, applied_b)
     post: _
     """
     ok, nt = _model_eq_core(ut_a, ut_b, it_a, it_b, 0, 0, 0, 0, False, False,
-                            0, 0, 0, 0, False, False, None, None)
+                            0, 0, 0, 0, False, False, None, None,
+                            True if applied_a else False, True if applied_b else False)
     return hx.verdict(ok, nt)
 
 
